@@ -641,6 +641,27 @@ class Foreign(Family):
                 d = compare_foreign(exp, records)
                 if d:
                     out.append(('C03', 'reading-differs-from-spec', d))
+            if out:
+                # C04, last clause: the failing section is a diff with no encoding of its own below a container that declares a
+                # codec whose newline is not the ASCII one -- a diff never inherits an encoding
+                secs = c['file']['sections']
+                k = len(records) if term[0] != 'end' else next((i for i in range(min(len(exp), len(records)))
+                                                                if compare_foreign(exp[i:i + 1], records[i:i + 1])), None)
+                if k is not None and k < len(secs) and secs[k]['id'] == '...diff' and not any(o[0] == 'encoding' for o in secs[k]['opts']):
+                    inherited = None
+                    for j in range(k - 1, -1, -1):
+                        if secs[j]['content'] is None and secs[j]['id'].count('.') < 3:
+                            e = next((o[1] for o in secs[j]['opts'] if o[0] == 'encoding'), None)
+                            if e and (secs[j]['id'] == 'diffx' or j >= max(i for i in range(k) if secs[i]['id'] == '.change')):
+                                inherited = e
+                                break
+                    try:
+                        wide = inherited is not None and '\n'.encode(inherited) != b'\n'
+                    except LookupError:
+                        wide = False
+                    if wide:
+                        out.append(('C04', 'diff-inherited-encoding', 'diff section %d (no encoding of its own, below %r): %s'
+                                    % (k, inherited, out[0][2])))
         elif c['kind'] == 'defect':
             exp = gf.expected(c['base'])
             k = c['at']
@@ -742,6 +763,27 @@ def small_file(rng, limit):
     return f
 
 
+def ends_with_own_newline(b):
+    """Does the content of record b end with the line ending of ITS kind (declared, else detected on its first line)? The
+    recorded short-read finding only ever yields such content; anything else is a different failure."""
+    try:
+        le = b['options'].get('line_endings')
+        if 'text' in b:
+            t = b['text']
+            if isinstance(t, bytes):        # no encoding in force: the text is given as bytes
+                t = t.decode('latin-1')
+            i = t.find('\n')
+            kind = le if le in ('unix', 'dos') else ('dos' if i > 0 and t[i - 1] == '\r' else 'unix')
+            return t.endswith('\r\n' if kind == 'dos' else '\n')
+        if 'diff' in b:
+            enc = b['options'].get('encoding')
+            kind = le if le in ('unix', 'dos') else gc.detect_kind_bytes(b['diff'], enc)
+            return b['diff'].endswith(gc.bomfree_newline(kind, enc))
+    except Exception:
+        pass
+    return True
+
+
 def classify_c07(intact, got, exhausted, tail=b'\n'):
     """None if got is a prefix of intact; else (signature, what)."""
     for i, g in enumerate(got):
@@ -760,7 +802,7 @@ def classify_c07(intact, got, exhausted, tail=b'\n'):
                 # different failure
                 if key in a and key in b and type(a[key]) is type(b[key]) and same_opts and \
                         a[key].startswith(b[key]) and 0 < len(b[key]) < len(a[key]) and \
-                        (tail[-1:] in (b'\n', b'\x00') or (key == 'text' and b[key].endswith('\n'))):
+                        (tail[-1:] in (b'\n', b'\x00') or (key == 'text' and b[key].endswith('\n'))) and ends_with_own_newline(b):
                     return ('short-read-accepted',
                             'record %d (%s) was yielded with content cut short (%d of %d units) because the stream '
                             'ended inside it' % (i, g['section'], len(b[key]), len(a[key])))
@@ -780,7 +822,8 @@ class Truncate(Family):
     rule = ('well-formed files x every truncation point 0..len, and every content section length perturbed by '
             '+-1..3, 0, -1, abc, 1_0, 2^70; content lines that are a header behind a non-grammar prefix, intact and with the '
             'length shortened to end right before them; writer files under every non-ASCII-transparent catalogue codec '
-            '(escape characters before newlines) cut at every byte; non-trivial = the cut falls strictly inside the file / the perturbed '
+            '(escape characters before newlines) cut at every byte; shortened lengths must leave content that ends with '
+            'its own newline or be rejected; non-trivial = the cut falls strictly inside the file / the perturbed '
             'length differs from the true one; distinct by resulting bytes')
 
     def cases(self, tier, rng, prop_id):
@@ -1005,6 +1048,23 @@ class Truncate(Family):
             except ValueError:
                 n = None
             constrained = n is None or n < 0 or n > self._bytes_after_header(c['file'], si)
+            sec = c['file']['sections'][si]
+            if n is not None and 0 < n < true and not sec['id'].endswith('meta'):
+                # a SHORTER declared length is another file: its content is the first n bytes, whose line ending is the declared
+                # one or the one detected on its first line; if these bytes do not end with that newline the section is not
+                # well-formed and must be rejected (single-byte newlines only: no alignment question)
+                try:
+                    enc = sec.get('enc')
+                    body = bytes.fromhex(sec['content'])[:n]
+                    if gc.bomfree_newline('unix', enc) == b'\n':
+                        le = next((o[1] for o in sec['opts'] if o[0] == 'line_endings'), None)
+                        kind = le if le in ('unix', 'dos') else gc.detect_kind_bytes(body, enc)
+                        if not body.endswith(gc.bomfree_newline(kind, enc)) and (term[0] != 'parse' or len(records) != si):
+                            out.append(('C07', 'shortened-content-without-final-newline-accepted',
+                                        'length=%s (true %d) at section %d (%s): the %d bytes end with %r, not with the %s newline, and '
+                                        'the reader gave %d records then %r' % (v, true, si, sec['id'], n, body[-3:], kind, len(records), term[:2])))
+                except (LookupError, ValueError):
+                    pass
             if constrained:
                 # records before the perturbed section unchanged; the perturbed one must not be yielded altered
                 if [sl.record_sx(x) for x in records[:si]] != [sl.record_sx(x) for x in intact[:len(records[:si])]]:
@@ -1016,7 +1076,7 @@ class Truncate(Family):
                         # the known short read yields a non-empty, newline-terminated part of the content; a section
                         # yielded with NO content at all is not that finding
                         nonempty = any(b.get(k) for k in ('text', 'metadata', 'diff'))
-                        exceeds = n is not None and n > 0 and nonempty
+                        exceeds = n is not None and n > 0 and nonempty and ends_with_own_newline(b)
                         out.append(('C07', 'short-read-accepted' if exceeds else 'bad-length-accepted',
                                     'length=%s (true %d) at section %d (%s): the section was yielded with different '
                                     'content' % (v, true, si, b['section'])))
